@@ -91,6 +91,14 @@ def shapes(tier):
         out.append({"mode": "inmem", "N": N, "n_lin": 1, "kmax": "sym", "neginf": ninf})
         out.append({"mode": "file", "N": N, "n_lin": 1, "kmax": "none", "n_batches": 2, "randomize": False, "n_prior": None,
                     "src": "filename" if N % 2 else "object", "pool": 1, "neginf": ninf})
+    # file-path options given together with in_memory=True (they must not change which rows are evaluated / kept), and the
+    # same options on the public file path
+    for N in ([3] if tier == "quick" else [3, 4]):
+        for src in ("object", "filename"):
+            out.append({"mode": "api", "N": N, "n_lin": 1, "kmax": "none", "in_memory": True, "src": src, "randomize": True, "n_batches": None,
+                        "pool": 1, "n_prior": N - 1})
+            out.append({"mode": "api", "N": N, "n_lin": 1, "kmax": "sym", "in_memory": False, "src": src, "randomize": src == "object", "n_batches": None,
+                        "pool": 1, "n_prior": N - 1})
     # call histories: an earlier call on another library under the same file name / in the same JokerSamples object
     for N in ([2] if tier == "quick" else [2, 3]):
         out.append({"mode": "file", "N": N, "n_lin": 1, "kmax": "none", "n_batches": 2, "randomize": False, "n_prior": None, "src": "filename",
@@ -162,11 +170,12 @@ def run_harness(S, shape, logprobs=False, all_logprobs=False, fault_at=None):
         lg = logprobs and not (shape["in_memory"] and shape["src"] == "filename")
         import types as _t
         data = _t.SimpleNamespace(t_ref=units.Time(core.real("t_ref")))
-        out = joker.rejection_sample(data, src, max_posterior_samples=kmax, n_linear_samples=nlin,
+        out = joker.rejection_sample(data, src, max_posterior_samples=kmax, n_linear_samples=nlin, n_prior_samples=shape.get("n_prior"),
                                      return_logprobs=lg, return_all_logprobs=all_logprobs, n_batches=shape["n_batches"],
                                      randomize_prior_order=shape["randomize"], in_memory=shape["in_memory"])
         info["logprobs_effective"] = lg
-        info.update(n_eval=N, randomized=shape["randomize"] and not shape["in_memory"])
+        # in_memory=True evaluates the whole library in its own order (n_prior_samples / randomize_prior_order are file-path options)
+        info.update(n_eval=N if (shape["in_memory"] or shape.get("n_prior") is None) else shape["n_prior"], randomized=shape["randomize"] and not shape["in_memory"])
     else:
         raise ValueError(mode)
     all_ll = None
@@ -222,7 +231,7 @@ def _run_history(S, shape, info, logprobs, all_logprobs):
         def call(rng_):
             joker.rng = rng_
             return joker.rejection_sample(data, src, max_posterior_samples=kmax, n_linear_samples=nlin, return_logprobs=logprobs,
-                                          return_all_logprobs=all_logprobs, n_batches=shape["n_batches"],
+                                          return_all_logprobs=all_logprobs, n_batches=shape["n_batches"], n_prior_samples=shape.get("n_prior"),
                                           randomize_prior_order=shape["randomize"], in_memory=shape["in_memory"])
         info["logprobs_effective"] = logprobs
         info.update(n_eval=N, randomized=shape["randomize"] and not shape["in_memory"])
@@ -578,7 +587,7 @@ def _replay_once(cand, focus, shift):
                 else:
                     src = prior
                 return joker.rejection_sample(None, src, max_posterior_samples=kmax, n_linear_samples=nlin, return_logprobs=lg,
-                                              return_all_logprobs=all_lp, n_batches=shape["n_batches"],
+                                              return_all_logprobs=all_lp, n_batches=shape["n_batches"], n_prior_samples=shape.get("n_prior"),
                                               randomize_prior_order=shape["randomize"], in_memory=shape["in_memory"])
             finally:
                 tjm.TheJoker._make_joker_helper = orig
@@ -588,7 +597,7 @@ def _replay_once(cand, focus, shift):
             n_eval = shape["n_prior"] if shape["n_prior"] is not None else N
             randomized = shape["randomize"]
         else:
-            n_eval = N
+            n_eval = N if (shape["in_memory"] or shape.get("n_prior") is None) else shape["n_prior"]
             randomized = shape["randomize"] and not shape["in_memory"]
             logprobs = lg
         try:
